@@ -1423,6 +1423,191 @@ theorem C02_heap_adoption_keeps_caller_object (s : Store) (x : Addr) (hx : x < s
     simp [followAttrs, followIdx, attr, List.getElem?_append_right, List.getElem?_append_left hx, hcx', href, Nat.add_assoc]
     exact Nat.lt_of_lt_of_le hrid (Nat.le_add_right _ _)
 
+/-! ### setters that write INTO caller-supplied objects: what they write, and what they cannot touch (general) -/
+
+private theorem setRef_run (a : Addr) (i : Nat) (v : Option Addr) (s : Store) (u : Unit) (s' : Store) :
+    (setRef a i v).run s = some (u, s') ↔ ∃ c, s[a]? = some c ∧ s' = s.set a { c with refs := c.refs.set i v } := by
+  unfold setRef
+  rw [run_bind_some]
+  constructor
+  · rintro ⟨c, s1, h1, h2⟩
+    obtain ⟨hc, rfl⟩ := (cellAt_run _ _ _ _).mp h1
+    exact ⟨c, hc, ((put_run _ _ _ _ _).mp h2).2⟩
+  · rintro ⟨c, hc, rfl⟩
+    exact ⟨c, s, (cellAt_run _ _ _ _).mpr ⟨hc, rfl⟩, (put_run _ _ _ _ _).mpr ⟨(List.getElem?_eq_some_iff.mp hc).1, rfl⟩⟩
+
+private theorem followIdx_one {s : Store} {a r : Addr} {c : Cell} {i : Nat} (hc : s[a]? = some c) (hr : c.refs[i]? = some (some r)) :
+    followIdx s a [i] = some r := by
+  simp [followIdx, hc, hr]
+
+private theorem followIdx_two {s : Store} {a b r : Addr} {c d : Cell} {i j : Nat} (hc : s[a]? = some c) (hr : c.refs[i]? = some (some b))
+    (hd : s[b]? = some d) (hr2 : d.refs[j]? = some (some r)) : followIdx s a [i, j] = some r := by
+  simp [followIdx, hc, hr, hd, hr2]
+
+/-- what a call that only overwrites cells of `W` and allocates cannot touch (the conclusion of `C11_heap_steps_frame`) -/
+def FrameOutside (W : List Addr) (s s' : Store) : Prop :=
+  ∀ n x, Valid n s x → (∀ a ∈ W, a ∉ reachN n s x) → viewN n s' x = viewN n s x ∧ reachN n s' x = reachN n s x
+
+private theorem frameOutside_of_steps {W : List Addr} {s s' : Store} (h : Steps W s s') : FrameOutside W s s' :=
+  fun n x hv hw => let ⟨a, b, _⟩ := C11_heap_steps_frame h n x hv hw; ⟨a, b⟩
+
+/-- GENERAL (every store, every `FinOp`): a Finished-PDU setter (`condition_code`, `fault_location`, `file_store_responses`,
+    `None` included) overwrites exactly two pre-existing cells — the parameter object the PDU holds (the CALLER's
+    `FinishedParams`, see `C11_heap_pdu_ctor_keeps_caller_object`) and the PDU's header — and allocates at most a list; every
+    handle that reaches neither shows the same view afterwards -/
+theorem C11_heap_finished_setter_confined (s : Store) (pdu : Addr) (op : FinOp) (u : Unit) (s' : Store)
+    (h : (finSet pdu op).run s = some (u, s')) :
+    ∃ p hd, followIdx s pdu [1] = some p ∧ followIdx s pdu [0, 0] = some hd ∧ FrameOutside [p, hd] s s' := by
+  have pre : ∀ {β : Type} (k : Addr → Addr → H β) (r : β), (do
+        let p ← ref pdu 1
+        let b ← ref pdu 0
+        let hd ← ref b 0
+        k p hd).run s = some (r, s') →
+      ∃ p hd, followIdx s pdu [1] = some p ∧ followIdx s pdu [0, 0] = some hd ∧ (k p hd).run s = some (r, s') := by
+    intro β k r h
+    obtain ⟨p, s1, h1, h2⟩ := (run_bind_some _ _ _ _ _).mp h
+    obtain ⟨⟨cp, hcp, hr1⟩, e⟩ := (ref_run _ _ _ _ _).mp h1
+    subst s1
+    obtain ⟨b, s2, h3, h4⟩ := (run_bind_some _ _ _ _ _).mp h2
+    obtain ⟨⟨cp', hcp', hr2⟩, e⟩ := (ref_run _ _ _ _ _).mp h3
+    subst s2
+    have e1 : cp' = cp := by rw [hcp] at hcp'; exact (Option.some.inj hcp').symm
+    subst e1
+    obtain ⟨hd, s3, h5, h6⟩ := (run_bind_some _ _ _ _ _).mp h4
+    obtain ⟨⟨cb, hcb, hr3⟩, e⟩ := (ref_run _ _ _ _ _).mp h5
+    subst s3
+    exact ⟨p, hd, followIdx_one hcp hr1, followIdx_two hcp hr2 hcb hr3, h6⟩
+  cases op with
+  | cond v =>
+    obtain ⟨p, hd, hp, hh, h⟩ := pre (fun p hd => do setScal p 0 v; setScal hd 2 (2 + v)) u h
+    refine ⟨p, hd, hp, hh, frameOutside_of_steps ?_⟩
+    obtain ⟨u1, s1, h1, h2⟩ := (run_bind_some _ _ _ _ _).mp h
+    obtain ⟨c1, _, rfl⟩ := (setScal_run _ _ _ _ _ _).mp h1
+    obtain ⟨c2, _, rfl⟩ := (setScal_run _ _ _ _ _ _).mp h2
+    exact .write hd _ (.write p _ (.refl s) (by simp)) (by simp)
+  | faultLoc t =>
+    cases t with
+    | some a =>
+      obtain ⟨p, hd, hp, hh, h⟩ := pre (fun p hd => do setRef p 1 (some a); setScal hd 2 7) u h
+      refine ⟨p, hd, hp, hh, frameOutside_of_steps ?_⟩
+      obtain ⟨u1, s1, h1, h2⟩ := (run_bind_some _ _ _ _ _).mp h
+      obtain ⟨c1, _, rfl⟩ := (setRef_run _ _ _ _ _ _).mp h1
+      obtain ⟨c2, _, rfl⟩ := (setScal_run _ _ _ _ _ _).mp h2
+      exact .write hd _ (.write p _ (.refl s) (by simp)) (by simp)
+    | none =>
+      obtain ⟨p, hd, hp, hh, h⟩ := pre (fun p hd => do setRef p 1 none; setScal hd 2 2) u h
+      refine ⟨p, hd, hp, hh, frameOutside_of_steps ?_⟩
+      obtain ⟨u1, s1, h1, h2⟩ := (run_bind_some _ _ _ _ _).mp h
+      obtain ⟨c1, _, rfl⟩ := (setRef_run _ _ _ _ _ _).mp h1
+      obtain ⟨c2, _, rfl⟩ := (setScal_run _ _ _ _ _ _).mp h2
+      exact .write hd _ (.write p _ (.refl s) (by simp)) (by simp)
+  | responses l =>
+    cases l with
+    | some a =>
+      obtain ⟨p, hd, hp, hh, h⟩ := pre (fun p hd => do setRef p 0 (some a); setScal hd 2 11) u h
+      refine ⟨p, hd, hp, hh, frameOutside_of_steps ?_⟩
+      obtain ⟨u1, s1, h1, h2⟩ := (run_bind_some _ _ _ _ _).mp h
+      obtain ⟨c1, _, rfl⟩ := (setRef_run _ _ _ _ _ _).mp h1
+      obtain ⟨c2, _, rfl⟩ := (setScal_run _ _ _ _ _ _).mp h2
+      exact .write hd _ (.write p _ (.refl s) (by simp)) (by simp)
+    | none =>
+      obtain ⟨p, hd, hp, hh, h⟩ := pre (fun p hd => do
+        let e ← new ⟨.pyList, [], []⟩
+        setRef p 0 (some e)
+        setScal hd 2 2) u h
+      refine ⟨p, hd, hp, hh, frameOutside_of_steps ?_⟩
+      obtain ⟨e, s0, h0, h⟩ := (run_bind_some _ _ _ _ _).mp h
+      obtain ⟨rfl, rfl⟩ := (new_run _ _ _ _).mp h0
+      obtain ⟨u1, s1, h1, h2⟩ := (run_bind_some _ _ _ _ _).mp h
+      obtain ⟨c1, _, rfl⟩ := (setRef_run _ _ _ _ _ _).mp h1
+      obtain ⟨c2, _, rfl⟩ := (setScal_run _ _ _ _ _ _).mp h2
+      exact .write hd _ (.write p _ (.alloc _ (.refl s)) (by simp)) (by simp)
+
+/-- GENERAL, truthful: `pdu.condition_code = v` assigns the scalar of the parameter object the PDU holds — after
+    `FinishedPdu(conf, params)` that is the caller's `params` — while the constructor itself leaves it as it was
+    (`C11_heap_eight_ctors_inputs_untouched`) -/
+theorem C11_heap_finished_setter_writes_caller_params (s : Store) (pdu : Addr) (v : Nat) (u : Unit) (s' : Store)
+    (h : (finSet pdu (.cond v)).run s = some (u, s')) :
+    ∃ p hd cp, followIdx s pdu [1] = some p ∧ followIdx s pdu [0, 0] = some hd ∧ s[p]? = some cp ∧
+      (p ≠ hd → s'[p]? = some { cp with scal := cp.scal.set 0 v }) := by
+  simp only [finSet] at h
+  obtain ⟨p, s1, h1, h2⟩ := (run_bind_some _ _ _ _ _).mp h
+  obtain ⟨⟨cpdu, hcpdu, hr1⟩, e⟩ := (ref_run _ _ _ _ _).mp h1
+  subst s1
+  obtain ⟨b, s2, h3, h4⟩ := (run_bind_some _ _ _ _ _).mp h2
+  obtain ⟨⟨c', hc', hr2⟩, e⟩ := (ref_run _ _ _ _ _).mp h3
+  subst s2
+  have e1 : c' = cpdu := by rw [hcpdu] at hc'; exact (Option.some.inj hc').symm
+  subst e1
+  obtain ⟨hd, s3, h5, h6⟩ := (run_bind_some _ _ _ _ _).mp h4
+  obtain ⟨⟨cb, hcb, hr3⟩, e⟩ := (ref_run _ _ _ _ _).mp h5
+  subst s3
+  obtain ⟨u1, s4, h7, h8⟩ := (run_bind_some _ _ _ _ _).mp h6
+  obtain ⟨cp, hcp, rfl⟩ := (setScal_run _ _ _ _ _ _).mp h7
+  obtain ⟨ch, _, rfl⟩ := (setScal_run _ _ _ _ _ _).mp h8
+  refine ⟨p, hd, cp, followIdx_one hcpdu hr1, followIdx_two hcpdu hr2 hcb hr3, hcp, ?_⟩
+  intro hne
+  rw [List.getElem?_set_ne (fun e => hne e.symm), List.getElem?_set_self (List.getElem?_eq_some_iff.mp hcp).1]
+
+/-- GENERAL: the File Data setters (`file_data`, `segment_metadata`) overwrite exactly the parameter object the PDU holds
+    (the caller's `FileDataParams`) and the PDU's header; `holder.pdu = x` overwrites exactly the holder -/
+theorem C11_heap_filedata_holder_setter_confined (s : Store) (obj : Addr) (u : Unit) (s' : Store) :
+    (∀ op, (fdSet obj op).run s = some (u, s') →
+      ∃ p hd, followIdx s obj [1] = some p ∧ followIdx s obj [0] = some hd ∧ FrameOutside [p, hd] s s') ∧
+    (∀ x, (holderSet obj x).run s = some (u, s') → FrameOutside [obj] s s' ∧
+      ∃ c, s[obj]? = some c ∧ s'[obj]? = some { c with refs := c.refs.set 0 x }) := by
+  constructor
+  · intro op h
+    cases op with
+    | fileData n =>
+      simp only [fdSet] at h
+      obtain ⟨p, s1, h1, h2⟩ := (run_bind_some _ _ _ _ _).mp h
+      obtain ⟨⟨co, hco, hr1⟩, e⟩ := (ref_run _ _ _ _ _).mp h1
+      subst s1
+      obtain ⟨hd, s2, h3, h4⟩ := (run_bind_some _ _ _ _ _).mp h2
+      obtain ⟨⟨co', hco', hr2⟩, e⟩ := (ref_run _ _ _ _ _).mp h3
+      subst s2
+      have e1 : co' = co := by rw [hco] at hco'; exact (Option.some.inj hco').symm
+      subst e1
+      obtain ⟨sm, s3, h5, h6⟩ := (run_bind_some _ _ _ _ _).mp h4
+      have e2 := refOpt_run_store _ _ _ _ _ h5
+      subst e2
+      obtain ⟨ml, s4, h7, h8⟩ := (run_bind_some _ _ _ _ _).mp h6
+      have e3 := segMetaLen_run_store _ _ _ _ h7
+      subst e3
+      obtain ⟨u1, s5, h9, h10⟩ := (run_bind_some _ _ _ _ _).mp h8
+      obtain ⟨c1, _, rfl⟩ := (setScal_run _ _ _ _ _ _).mp h9
+      obtain ⟨c2, _, rfl⟩ := (setScal_run _ _ _ _ _ _).mp h10
+      exact ⟨p, hd, followIdx_one hco hr1, followIdx_one hco hr2,
+        frameOutside_of_steps (.write hd _ (.write p _ (.refl _) (by simp)) (by simp))⟩
+    | segMeta m =>
+      simp only [fdSet] at h
+      obtain ⟨p, s1, h1, h2⟩ := (run_bind_some _ _ _ _ _).mp h
+      obtain ⟨⟨co, hco, hr1⟩, e⟩ := (ref_run _ _ _ _ _).mp h1
+      subst s1
+      obtain ⟨hd, s2, h3, h4⟩ := (run_bind_some _ _ _ _ _).mp h2
+      obtain ⟨⟨co', hco', hr2⟩, e⟩ := (ref_run _ _ _ _ _).mp h3
+      subst s2
+      have e1 : co' = co := by rw [hco] at hco'; exact (Option.some.inj hco').symm
+      subst e1
+      obtain ⟨n, s3, h5, h6⟩ := (run_bind_some _ _ _ _ _).mp h4
+      obtain ⟨_, e⟩ := (scalAt_run _ _ _ _ _).mp h5
+      subst s3
+      obtain ⟨ml, s4, h7, h8⟩ := (run_bind_some _ _ _ _ _).mp h6
+      have e3 := segMetaLen_run_store _ _ _ _ h7
+      subst e3
+      obtain ⟨u1, s5, h9, h10⟩ := (run_bind_some _ _ _ _ _).mp h8
+      obtain ⟨c1, _, rfl⟩ := (setRef_run _ _ _ _ _ _).mp h9
+      obtain ⟨u2, s6, h11, h12⟩ := (run_bind_some _ _ _ _ _).mp h10
+      obtain ⟨c2, _, rfl⟩ := (setScal_run _ _ _ _ _ _).mp h11
+      obtain ⟨c3, _, rfl⟩ := (setScal_run _ _ _ _ _ _).mp h12
+      exact ⟨p, hd, followIdx_one hco hr1, followIdx_one hco hr2,
+        frameOutside_of_steps (.write hd _ (.write hd _ (.write p _ (.refl _) (by simp)) (by simp)) (by simp))⟩
+  · intro x h
+    obtain ⟨c, hc, rfl⟩ := (setRef_run _ _ _ _ _ _).mp h
+    exact ⟨frameOutside_of_steps (.write obj _ (.refl s) (by simp)), c, hc,
+      List.getElem?_set_self (List.getElem?_eq_some_iff.mp hc).1⟩
+
 /-- the call does not raise and its result and the store afterwards satisfy `P` -/
 def Holds {α : Type} (r : Option (α × Store)) (P : α → Store → Prop) : Prop := ∃ a s', r = some (a, s') ∧ P a s'
 
@@ -1491,7 +1676,7 @@ example :
 
 /-- TRUTHFUL: the setters of a Finished PDU write into the parameter object the caller passed to the constructor
     (`pdu.condition_code = …` changes the caller's `FinishedParams`); the constructor itself does not -/
-theorem C11_heap_finished_setter_writes_caller_params :
+example :
     Holds ((newFinishedPdu 3 5).run exConfStore) fun pdu s' =>
       view s' 5 = view exConfStore 5 ∧ (s'[pdu]?.map Cell.refs) = some [some 8, some 5] ∧
       Holds ((finSet pdu (.cond 4)).run s') fun _ s'' => view s'' 5 ≠ view s' 5 := by decide
